@@ -27,6 +27,9 @@ RULES = {
     "R-C08-f": "multi-way union: an emitted value is never emitted twice (every array whose head equals the minimum is advanced, or the emission is guarded by the previous value)",
     "R-C08-h": "multi-way union: the empty case (no array, or only empty arrays) returns before concatenate/max are applied to an empty list",
     "R-C08-i": "multi-way union: each array's start offset into the concatenated buffer is a prefix sum of the lengths",
+    "R-C08-k": "multi-way union: the merge loop normalises to reset / scan / exit / emit / advance and each part's finite decision table (cursor vs limit, marker vs reset value, head vs minimum) equals the required one; "
+               "the flat buffers are the concatenation, its exclusive and inclusive prefix sums; the count starts at 0 and the filled prefix is returned; the empty case returns an empty array",
+    "R-C08-l": "the C scalars that cache element values, and the result view, are at least as wide as the elements (uint32): a signed or narrower cache reorders large row ids",
     "R-C08-g": "callers pass operands in the order the operation's asymmetry requires (receiver's rows on the left)",
 }
 OPS = ("intersection", "union", "difference")
@@ -55,6 +58,31 @@ def check_kernel(rep, op, cyf):
     n = 0
     want = kernels.BRANCHES[op]
     names = {"L": k.arr["L"], "R": k.arr["R"]}
+    # the scalars that cache the cursor values (and the result view) can hold every element
+    from sa.kway import WIDTH
+    types = {}
+    for x in walk(cyf.node):
+        if tname(x) == "NameNode" and getattr(x, "type", None) is not None:
+            types.setdefault(x.name, str(x.type))
+    for side in ("L", "R"):
+        et = types.get(k.arr[side], "").replace("const ", "")
+        et = et[:-3] if et.endswith("[:]") else et
+        vt = types.get(k.val[side], "").replace("const ", "")
+        ew, vw = WIDTH.get(et), WIDTH.get(vt)
+        cons = "%s: cached %s value `%s` (%s) can hold every %s element" % (op, "left" if side == "L" else "right", k.val[side], vt, et)
+        if ew is None or vw is None:
+            rep.undecided("R-C08-l", where, cons, "C type not in the width table")
+        else:
+            rep.check(vw >= ew, "R-C08-l", where, cons, "%d value bits" % vw, "%s has %d value bits, the elements %d: large row ids wrap and compare as small (or negative) numbers" % (vt, vw, ew),
+                      witness={"inputs": "%s([1, 3000000000], [3000000000])" % op})
+    rt = types.get(k.result_view, "").replace("const ", "")
+    rt = rt[:-3] if rt.endswith("[:]") else rt
+    et = types.get(k.arr["L"], "").replace("const ", "")
+    et = et[:-3] if et.endswith("[:]") else et
+    if WIDTH.get(rt) is None or WIDTH.get(et) is None:
+        rep.undecided("R-C08-l", where, "%s: result view element type" % op, "C type %s not in the width table" % rt)
+    else:
+        rep.check(WIDTH[rt] >= WIDTH[et], "R-C08-l", where, "%s: the result view (%s) can hold every %s element" % (op, rt, et), "", "the result buffer's elements are narrower than the inputs'", witness={"inputs": "%s([70000], [70000])" % op})
     for rel in ("L<R", "L>R", "EQ"):
         ev = table[rel]
         cons = "%s: branch %s" % (op, {"L<R": "left < right", "L>R": "left > right", "EQ": "equal"}[rel])
@@ -448,6 +476,29 @@ def check_many_layout(rep, f, where, loop):
     return n
 
 
+def check_kway(rep, funcs):
+    """R-C08-k: decision tables of the k-way merge (sa/kway.py)."""
+    from sa import kway
+    f = [x for x in funcs if x.name == "set_union_merge_many"]
+    if not f:
+        return 0
+    where = "set_operations:set_union_merge_many"
+    k = None
+    try:
+        k = kway.KWay(f[0])
+        k.analyse()
+        k.prelude()
+    except kway.Undecided as e:
+        if k is None or not any(o[0] == "VIOLATED" for o in k.obl):
+            rep.undecided("R-C08-k", where, "k-way merge schema (reset / scan / exit / emit / advance)", "outside the recognised schema: %s" % e)
+    n = 0
+    for status, part, line, cons, detail, wit in (k.obl if k is not None else []):
+        n += 1
+        rep.add("R-C08-k", "%s@%d" % (where, line), "[%s] %s" % (part, cons), status, detail, True, wit)
+    rep.floor("R-C08-k", 30, n) if not any(o.status != "PROVED" and o.rule == "R-C08-k" for o in rep.obls) else None
+    return n
+
+
 def check_callers(rep, prog):
     n = 0
     # _walk: intersect(base_rowids, rowids) with the raw kernel
@@ -483,7 +534,7 @@ def check_callers(rep, prog):
 
 def main(tier):
     rep = core.Report("C08", level="other", rules=RULES, tier=tier,
-                      declined="full functional correctness of the merge loops (sequence invariants beyond the linear domain); set_union_merge_many beyond rules e and f")
+                      declined="full functional correctness of the merge loops as a machine-checked sequence proof: the checks decide every decision table the textbook argument uses, the argument itself is the trusted step")
     rep.trusted_base = ["Cython 3.3.0 front-end (typed tree)", "CPython ast + symbolic walker for the Python wrappers",
                         "required tables for intersection / union / difference of strictly increasing sequences (sa/kernels.py)"]
     rep.assume("inputs are strictly increasing (C07); bounds are C09's obligations")
@@ -512,6 +563,7 @@ def main(tier):
     nw = check_wrappers(rep, prog, wk, None)
     rep.floor("R-C08-d", 30, nw)
     check_many(rep, funcs)
+    check_kway(rep, funcs)
     check_callers(rep, prog)
     rep.analysed["kernels"] = [f.name for f in funcs]
     return rep.finish()
